@@ -109,6 +109,11 @@ impl Hub {
         s.id2addr.insert(id.to_string(), addr.to_string());
     }
 
+    /// Record a connection between two endpoints (for connections the harness opens "from outside").
+    pub fn link(&self, a: &str, b: &str) {
+        self.st.lock().expect("hub").conns.insert(pair(a, b));
+    }
+
     pub fn set_silent(&self, id: &str, on: bool) {
         let mut s = self.st.lock().expect("hub");
         if on {
